@@ -663,4 +663,31 @@ theorem wfItem_decode_enc {b : Bytes} {n : Nat} {t : Cbor} {r : Bytes} (h : GV.C
   conv => rhs; rw [hb]
   rw [List.take_left' hlen]
 
+/-! ### non-vacuity and the corner cases both models must agree on -/
+
+/-- `[_ 1, h'aa']` followed by a stray byte: accepted by the machine with length 5 … -/
+example : GV.Cbor.wfItem [0x9f, 0x01, 0x41, 0xaa, 0xff, 0x00] = .ok 5 := by decide
+/-- … hence decoded by the tree layer, leaving exactly the stray byte -/
+example : ∃ t, decode [0x9f, 0x01, 0x41, 0xaa, 0xff, 0x00] = some (t, [0x00]) :=
+  wfItem_imp_decode (b := [0x9f, 0x01, 0x41, 0xaa, 0xff, 0x00]) (n := 5) (by decide)
+/-- nested: tag 1 over `{_ 1: (_ h'aa', h'') }` with a non-minimal head `0x18 0x01` -/
+example : ∃ t, decode [0xc1, 0xbf, 0x18, 0x01, 0x5f, 0x41, 0xaa, 0x40, 0xff, 0xff] = some (t, []) :=
+  wfItem_imp_decode (b := [0xc1, 0xbf, 0x18, 0x01, 0x5f, 0x41, 0xaa, 0x40, 0xff, 0xff]) (n := 10) (by decide)
+
+/-- corner cases, rejected by both: reserved additional info 28, stray break, two-byte simple
+    value < 32, indefinite text string with a byte-string chunk, nested indefinite chunk,
+    indefinite map with an odd number of items, indefinite-length integer / tag, break as a
+    tag's content or inside a definite array -/
+example : ∀ b ∈ ([[0x1c], [0xff], [0xf8, 0x1f], [0x7f, 0x41, 0x00, 0xff], [0x5f, 0x5f, 0xff, 0xff],
+      [0xbf, 0x01, 0xff], [0x1f], [0xdf, 0x00], [0xc1, 0xff], [0x81, 0xff]] : List Bytes),
+    GV.Cbor.wfItem b = .bad ∧ decode b = none := by decide
+/-- truncated input: `needMore` on the byte layer, `none` on the tree layer -/
+example : ∀ b ∈ ([[], [0x18], [0x42, 0x00], [0x9f, 0x01], [0xbf, 0x01, 0x02], [0xc1], [0x82, 0x01]] : List Bytes),
+    GV.Cbor.wfItem b = .needMore ∧ decode b = none := by decide
+/-- accepted by both with the same length: simple value 32 in two bytes, half float, non-minimal
+    lengths, empty indefinite containers, a tag chain -/
+example : ∀ b ∈ ([[0xf8, 0x20], [0xf9, 0x00, 0x00], [0x98, 0x00], [0xb9, 0x00, 0x00], [0x5f, 0xff],
+      [0x9f, 0xff], [0xbf, 0xff], [0xc1, 0xc2, 0x00], [0xa1, 0x01, 0x9f, 0xff]] : List Bytes),
+    GV.Cbor.wfItem b = .ok b.length ∧ (decode b).map (·.2) = some [] := by decide
+
 end GV.Proofs.CborLibsConv
